@@ -139,6 +139,9 @@ def role_coherence(facts, fn, sr, call, op, slots, res, R="C02.1.role-coherence"
             if rec:
                 recs.setdefault(role or part, set()).add((rec, mem))
     allrec = set(r for v in recs.values() for r, _m in v)
+    if len(allrec) == 2 and _same_source_run(facts, fn, call, recs):
+        res.instance(R, key0 + ":record", facts.loc(call), "the source is looked up once for a run of records with the same source index (scan `[e].indexSrc == key`), targets and codes come from each record of the run")
+        allrec = set()
     if len(allrec) > 1:
         res.violation(R, f, fnq, key0 + ":record", line, "arguments of %s are taken from different interaction records: %s" % (op, {k: sorted(v) for k, v in recs.items()}))
     want = {"P2P": {"source": "indexSrc", "target": "globalTargetPos", "pair": "arrayIndexSrc"},
@@ -323,6 +326,44 @@ def is_increment(st, did):
     return k == "UnaryOperator" and st.get("op") == "++" and strip(kids(st)[0]).get("did") == did
 
 
+def _same_source_run(facts, fn, call, recs):
+    """the source's record differs from the target's / code's record, legitimately: the call sits in `for(t = s; t < e; ++t)` where e was
+    advanced by `while(e < n && records[e].indexSrc == records[s].indexSrc)` - every record of [s, e) has the source index of record s"""
+    src_recs = set(r for role in ("source", "sources") for r, m in recs.get(role, set()) if m == "indexSrc")
+    oth_recs = set(r for role, v in recs.items() if role not in ("source", "sources") for r, _m in v)
+    if len(src_recs) != 1 or len(oth_recs) != 1 or src_recs == oth_recs:
+        return False
+    body = tbf.body(fn)
+    tbf.link_parents(body)
+    decls = {v["did"]: v for v in walk(body) if v.get("k") == "VarDecl"}
+    for F in [a for a in tbf.ancestors(call) if a.get("k") == "ForStmt"]:
+        init, cond = F["c"][0], F["c"][1]
+        iv = [v for v in kids(init) if v.get("k") == "VarDecl"] if init is not None else []
+        c0 = strip(cond) if cond is not None else None
+        if len(iv) != 1 or not kids(iv[0]) or c0 is None or c0.get("k") != "BinaryOperator" or c0.get("op") != "<":
+            continue
+        S = strip(kids(iv[0])[0])
+        E = strip(kids(c0)[1])
+        if S.get("k") != "DeclRefExpr" or E.get("k") != "DeclRefExpr" or strip(kids(c0)[0]).get("did") != iv[0]["did"]:
+            continue
+        for W in walk(body):
+            if W.get("k") != "WhileStmt" or W.get("b", 0) > F.get("b", 0):
+                continue
+            wc = facts.ntext(W["c"][-2]).replace(" ", "")
+            m = re.search(r"\[%s\]\.indexSrc==(\w+(?:\[\w+\]\.indexSrc)?)" % re.escape(E.get("name", "?")), wc)
+            if not m:
+                continue
+            key = m.group(1)
+            key_ok = re.fullmatch(r"\w+\[%s\]\.indexSrc" % re.escape(S.get("name", "?")), key) is not None
+            if not key_ok:
+                kd = [v for v in decls.values() if v.get("name") == key and kids(v)]
+                key_ok = bool(kd) and re.fullmatch(r"\w+\[%s\]\.indexSrc" % re.escape(S.get("name", "?")), facts.ntext(kids(kd[0])[0]).replace(" ", "")) is not None
+            bump = any(x.get("k") in ("UnaryOperator", "CompoundAssignOperator") and strip(kids(x)[0]).get("did") == E.get("did") for x in walk(W["c"][-1]))
+            if key_ok and bump:
+                return True
+    return False
+
+
 def non_empty(facts, fn, sr, call, op, slots, res, R="C02.3.non-empty"):
     """wrapper kernel calls with a (vector, count) source list are dominated by count > 0"""
     roles = ROLES[op]
@@ -334,6 +375,14 @@ def non_empty(facts, fn, sr, call, op, slots, res, R="C02.3.non-empty"):
         non_empty_vec(facts, fn, sr, call, op, n, res, R)
         return
     ndid = n["var"]
+    # a count that is a const local holding an accessor's value (`const long n = G.getNbParticlesInLeaf(i);`) is not the counter of a list
+    # being filled: nothing increments it
+    body_ = tbf.body(fn)
+    decl_ = [v for v in walk(body_) if v.get("k") == "VarDecl" and v.get("did") == ndid]
+    bumped = any((x.get("k") == "UnaryOperator" and x.get("op") in ("++", "--") or x.get("k") == "CompoundAssignOperator" or (x.get("k") == "BinaryOperator" and x.get("op") == "="))
+                 and kids(x) and strip(kids(x)[0]).get("did") == ndid for x in walk(body_))
+    if decl_ and kids(decl_[0]) and not bumped and strip(kids(decl_[0])[0]).get("k") in ("CallExpr", "CXXMemberCallExpr"):
+        return
     ok = None
     how = ""
     cur = call
@@ -680,6 +729,21 @@ def position_provenance(facts, res, R="C02.5.position-provenance", cls="TbfGroup
                 sg = source_group(kids(v)[0], v)
                 if sg is not None and sg[0] is not None:
                     owner[did] = sg
+        # ... and the plain copies of one: `const long int idx = (*found);`
+        grew = True
+        while grew:
+            grew = False
+            for did, v in decls.items():
+                if did in owner or not kids(v):
+                    continue
+                i0 = strip(kids(v)[0])
+                while i0.get("k") in ("UnaryOperator", "CXXOperatorCallExpr") and i0.get("op") == "*" and kids(i0):
+                    i0 = strip(kids(i0)[-1])
+                if i0.get("k") in ("CallExpr", "CXXMemberCallExpr") and tbf.callee_name(i0) == "value" and tbf.call_base(i0) is not None:
+                    i0 = strip(tbf.call_base(i0))
+                if i0.get("k") == "DeclRefExpr" and i0.get("did") in owner:
+                    owner[did] = owner[i0["did"]]
+                    grew = True
         for x in walk(body):
             if x.get("k") not in ("CallExpr", "CXXMemberCallExpr") or tbf.call_base(x) is None:
                 continue
@@ -728,7 +792,7 @@ def run(res, tier):
     res.floor("C02.1.toptree", ntop, 12, "top-tree kernel call sites")
     res.assumptions.append("non-emptiness of the periodic top-tree calls depends on the tree holding at least one particle (run-time fact); it is decided for the 12 wrapper sites only")
     res.rule("C02.5 position provenance: a position the wrapper looked up in a group is handed to accessors of that group only; a helper that computes the position from the index (hole-free shortcut) is followed, and its flag must be the hole-free test of the group that is looked up")
-    res.floor("C02.5", position_provenance(facts, res), 10, "accessor calls at looked-up positions")
+    res.floor("C02.5", position_provenance(facts, res), 6, "accessor calls at looked-up positions")
     wroles = wrapper_param_roles(facts, cmap)
     n = 0
     res.rule("C02.4 the interaction records an operator call is built from are those of this execution's tree: stage functions keep nothing about the tree in the executor (a list remembered across execute() calls pairs a position in a group with a position code computed for another cell once the tree is rebuilt)")
